@@ -17,6 +17,13 @@ pub fn sig_of(class: &str, msg: &str) -> String {
     format!("{class}:{}", s.chars().take(40).collect::<String>())
 }
 
+/// Failures on grammars in which a node creation crosses an open marker or leaves an undoable
+/// attempt all share one root cause and one signature (a listed finding).
+pub fn crossing_sig(g: &Grammar, sig: String, msg: String) -> (String, String) {
+    let shapes = crossing_shapes(g);
+    if shapes.is_empty() { (sig, msg) } else { ("crossing-creation".to_string(), format!("{msg} [grammar has a crossing node creation: {}]", shapes[0])) }
+}
+
 pub fn all_profiles() -> Vec<Profile> {
     vec![
         Profile::ebnf(),
@@ -24,6 +31,7 @@ pub fn all_profiles() -> Vec<Profile> {
         Profile { choice: true, nodeops: true, asserts: true, skips: true, ..Profile::base("choice-nodeops") },
         Profile { preds: true, pred_t: true, actions: true, returns: true, skips: true, parts: true, nodeops: true, ..Profile::base("preds-actions") },
         Profile { max_rules: 7, ..Profile::full() },
+        Profile { crossing: true, nodeops: true, choice: true, skips: true, parts: true, ..Profile::base("crossing-creations") },
     ]
 }
 
@@ -94,7 +102,7 @@ impl LabProp for P01 {
     }
     fn judge(&self, g: &Grammar, _i: &GInfo, req: &Req, rep: &Reply, _m: &mut dyn FnMut(&Req) -> Reply, ev: &mut Evidence) -> Verdict {
         if let Status::TreePanic(m) = &rep.status {
-            return Err((sig_of("tree-unreadable", m.split(" at ").last().unwrap_or(m)), format!("walking the returned tree panics: {m}")));
+            return Err(crossing_sig(g, sig_of("tree-unreadable", m.split(" at ").last().unwrap_or(m)), format!("walking the returned tree panics: {m}")));
         }
         if rep.status != Status::Ok {
             ev.exclude("parse did not return (C03 matter)");
@@ -103,7 +111,7 @@ impl LabProp for P01 {
         if nontrivial_c01(g, req, rep) {
             ev.nontrivial(&format!("{:?}{:?}", g, req));
         }
-        tree::check_lossless(g, req, rep).map_err(|m| (sig_of("lossless", &m), m))
+        tree::check_lossless(g, req, rep).map_err(|m| crossing_sig(g, sig_of("lossless", &m), m))
     }
 }
 
@@ -153,6 +161,9 @@ impl LabProp for P02 {
         standard_requests(g, gi, d, t.pick(120, 300), t.pick(24, 64))
     }
     fn judge(&self, g: &Grammar, _i: &GInfo, req: &Req, rep: &Reply, _m: &mut dyn FnMut(&Req) -> Reply, ev: &mut Evidence) -> Verdict {
+        if let Status::TreePanic(m) = &rep.status {
+            return Err(crossing_sig(g, sig_of("tree-unreadable", m.split(" at ").last().unwrap_or(m)), format!("walking the returned tree panics: {m}")));
+        }
         if rep.status != Status::Ok {
             ev.exclude("parse did not return (C03 matter)");
             return Ok(());
@@ -160,8 +171,8 @@ impl LabProp for P02 {
         if nontrivial_c02(g, req, rep) {
             ev.nontrivial(&format!("{:?}{:?}", g, req));
         }
-        tree::check_wellformed(g, req, rep).map_err(|m| (sig_of("shape", &m), m))?;
-        let (c, d) = tree::check_callbacks(rep, !g.any_regex(&|r| matches!(r, Regex::Choice(_)))).map_err(|m| (sig_of("callback", &m), m))?;
+        tree::check_wellformed(g, req, rep).map_err(|m| crossing_sig(g, sig_of("shape", &m), m))?;
+        let (c, d) = tree::check_callbacks(rep, !g.any_regex(&|r| matches!(r, Regex::Choice(_)))).map_err(|m| crossing_sig(g, sig_of("callback", &m), m))?;
         ev.label_n("created_announcements", c as u64);
         ev.label_n("deleted_announcements", d as u64);
         Ok(())
@@ -227,7 +238,11 @@ impl LabProp for P03 {
         }
         match &rep.status {
             Status::Ok => Ok(()),
-            st => Err((status_sig(st), format!("parse did not return normally: {st:?} (ticks {}, depth {})", rep.ticks, rep.depth))),
+            Status::TreePanic(_) => {
+                ev.exclude("tree unreadable (C01/C02 matter)");
+                Ok(())
+            }
+            st => Err(crossing_sig(g, status_sig(st), format!("parse did not return normally: {st:?} (ticks {}, depth {})", rep.ticks, rep.depth))),
         }
     }
 }
